@@ -37,7 +37,7 @@ package decoration
 //@ pred widthsOK(ws []int) = forall i int :: {ws[i]} 0 <= i && i < len(ws) ==> 0 <= ws[i] && ws[i] <= 1099511627776
 
 //@ func (*Decoration).ForColumnWidths
-//@   tags C03,C09
+//@   tags C03,C09,C14
 //@   requires d != nil && widthsOK(widths) && len(widths) <= 1048576
 //@   assigns nothing
 //@   ensures result.colWidths === widths && result.decor == d && result.eol == "" && 0 <= result.totalWidth && result.totalWidth <= 2305843009213693952
@@ -45,13 +45,13 @@ package decoration
 //@   loop#1 decreases len(widths) - rangeindex
 
 //@ func (*emitter).SetEOL
-//@   tags C03,C09
+//@   tags C03,C09,C14
 //@   requires e != nil && -4611686018427387904 <= e.totalWidth && e.totalWidth <= 4611686018427387904
 //@   assigns e.totalWidth, e.eol
 //@   ensures e.eol == eol && e.totalWidth == old(e.totalWidth) - len(old(e.eol)) + len(eol)
 
 //@ func (emitter).commonTemplateLine
-//@   tags C03,C09
+//@   tags C03,C09,C14
 //@   requires e.decor != nil && widthsOK(e.colWidths) && len(e.colWidths) <= 1048576
 //@   assigns new(string)
 //@   ensures [boxless-emits-no-rules] e.decor.isBoxless ==> result == "" @C03
@@ -71,7 +71,7 @@ package decoration
 //@ spec slot(ds DividerSet, k int) int = (ds.Left != "" ? 1 : 0) + k * (ds.Inner != "" ? 2 : 1)
 
 //@ func (emitter).commonRenderedLine
-//@   tags C03,C04,C09
+//@   tags C03,C04,C09,C14
 //@   requires widthsOK(e.colWidths) && len(e.colWidths) <= 1048576 && len(cellStrs) >= len(e.colWidths) && len(colAligns) >= len(e.colWidths) && dividersOK(ds, len(e.colWidths))
 //@   requires [alignments-valid] forall i int :: {colAligns[i]} 0 <= i && i < len(colAligns) ==> isAlign(colAligns[i])
 //@   assigns new(string)
@@ -87,13 +87,13 @@ package decoration
 //@   call Join#1 before assert [field-count] len(e.colWidths) >= 1 ==> len(fields) == (ds.Left != "" ? 1 : 0) + len(e.colWidths) + (ds.Inner != "" ? len(e.colWidths) - 1 : 0) + (ds.Right != "" ? 1 : 0) @C03
 
 //@ func (emitter).HeaderDividers
-//@   tags C03,C09
+//@   tags C03,C09,C14
 //@   requires e.decor != nil
 //@   assigns nothing
 //@   ensures result.Left == e.decor.VHeader && result.Inner == e.decor.VHeader && result.Right == e.decor.VHeader
 
 //@ func (emitter).BodyDividers
-//@   tags C03,C09
+//@   tags C03,C09,C14
 //@   requires e.decor != nil
 //@   assigns nothing
 //@   ensures result.Left == e.decor.VBodyBorder && result.Inner == e.decor.VBodyInner && result.Right == e.decor.VBodyBorder
@@ -102,13 +102,13 @@ package decoration
 //@ pred lineOK(e emitter, cellStrs []WidthString, colAligns []align.Alignment) = e.decor != nil && widthsOK(e.colWidths) && len(e.colWidths) <= 1048576 && len(cellStrs) >= len(e.colWidths) && len(colAligns) >= len(e.colWidths) && (forall i int :: {colAligns[i]} 0 <= i && i < len(colAligns) ==> isAlign(colAligns[i]))
 
 //@ func (emitter).HeaderLineRendered
-//@   tags C03,C04,C09
+//@   tags C03,C04,C09,C14
 //@   requires lineOK(e, cellStrs, colAligns)
 //@   assigns new(string)
 //@   ensures true
 
 //@ func (emitter).BodyLineRendered
-//@   tags C03,C04,C09
+//@   tags C03,C04,C09,C14
 //@   requires lineOK(e, cellStrs, colAligns)
 //@   assigns new(string)
 //@   ensures true
@@ -117,48 +117,48 @@ package decoration
 //@ pred ruleOK(e emitter) = e.decor != nil && widthsOK(e.colWidths) && len(e.colWidths) <= 1048576
 
 //@ func (emitter).LineHeaderTop
-//@   tags C03,C09
+//@   tags C03,C09,C14
 //@   requires ruleOK(e)
 //@   assigns new(string)
 //@   call commonTemplateLine before assert [glyphs-as-documented] arg1 == e.decor.TopLeft && arg2 == e.decor.HOuter && arg3 == e.decor.HTopDown && arg4 == e.decor.TopRight @C03
 //@   ensures [boxless-emits-no-rules] e.decor.isBoxless ==> result == "" @C03
 
 //@ func (emitter).LineHeaderBodySep
-//@   tags C03,C09
+//@   tags C03,C09,C14
 //@   requires ruleOK(e)
 //@   assigns new(string)
 //@   call commonTemplateLine before assert [glyphs-as-documented] arg1 == e.decor.HBLeft && arg2 == e.decor.HOuter && arg3 == e.decor.HBCross && arg4 == e.decor.HBRight @C03
 //@   ensures [boxless-emits-no-rules] e.decor.isBoxless ==> result == "" @C03
 
 //@ func (emitter).LineBodyTop
-//@   tags C03,C09
+//@   tags C03,C09,C14
 //@   requires ruleOK(e)
 //@   assigns new(string)
 //@   call commonTemplateLine before assert [glyphs-as-documented] arg1 == e.decor.TopLeft && arg2 == e.decor.HOuter && arg3 == e.decor.BTopDown && arg4 == e.decor.TopRight @C03
 //@   ensures [boxless-emits-no-rules] e.decor.isBoxless ==> result == "" @C03
 
 //@ func (emitter).LineBottom
-//@   tags C03,C09
+//@   tags C03,C09,C14
 //@   requires ruleOK(e)
 //@   assigns new(string)
 //@   call commonTemplateLine before assert [glyphs-as-documented] arg1 == e.decor.BottomLeft && arg2 == e.decor.HOuter && arg3 == e.decor.BBottomUp && arg4 == e.decor.BottomRight @C03
 //@   ensures [boxless-emits-no-rules] e.decor.isBoxless ==> result == "" @C03
 
 //@ func (emitter).LineSeparator
-//@   tags C03,C09
+//@   tags C03,C09,C14
 //@   requires ruleOK(e)
 //@   assigns new(string)
 //@   call commonTemplateLine before assert [glyphs-as-documented] arg1 == e.decor.LeftBodyRule && arg2 == e.decor.HRule && arg3 == e.decor.CrossPiece && arg4 == e.decor.RightBodyRule @C03
 //@   ensures [boxless-emits-no-rules] e.decor.isBoxless ==> result == "" @C03
 
 //@ func (emitter).LineHeaderBlanks
-//@   tags C03,C09
+//@   tags C03,C09,C14
 //@   requires ruleOK(e)
 //@   assigns new(string)
 //@   ensures [boxless-emits-no-rules] e.decor.isBoxless ==> result == "" @C03
 
 //@ func (emitter).LineBodyBlanks
-//@   tags C03,C09
+//@   tags C03,C09,C14
 //@   requires ruleOK(e)
 //@   assigns new(string)
 //@   ensures [boxless-emits-no-rules] e.decor.isBoxless ==> result == "" @C03
